@@ -188,34 +188,41 @@ def run(chk):
     class Card:
         pass
 
-    eko = FakeEKO()
-    atlas = Atlas(MatchingScales([Q(2), Q(20), Q(30000)]), (Q(1), 3))
-    grid = [(Q(10), 4), (Q(100), 5), (Q(100), 3), (Q(50000), 6)]
-    opcard = Card()
-    opcard.evolgrid = grid
-    eko.operator_card = opcard
     saved = (managed.EKO, recipes.commons.atlas, ops_mod.commons.atlas, parts_mod.evolve, parts_mod.match, ops_mod._dotop)
-    managed.EKO = type("E", (), {"create": staticmethod(lambda path: FakeBuilder(eko))})
-    recipes.commons.atlas = lambda th, op: atlas
-    managed.parts.evolve = lambda e, r: Operator(Free.sym(f"ev{hash(r) % 10**6}"), None)
-    managed.parts.match = lambda e, r: Operator(Free.sym(f"ma{hash(r) % 10**6}"), None)
-    ops_mod._dotop = lambda x, y: Operator(x.operator * y.operator, None)
+    # origin patch 3 (targets above only), 4 and 5 (targets on both sides of the origin patch, at equal and different flavour distances, shared sections)
+    SCENARIOS = [
+        ("", (Q(1), 3), [(Q(10), 4), (Q(100), 5), (Q(100), 3), (Q(50000), 6)]),
+        ("[origin nf=4]", (Q(10), 4), [(Q(100), 5), (Q(1), 3), (Q(5), 4), (Q(50000), 6), (Q(100), 3), (Q(50), 5)]),
+        ("[origin nf=5]", (Q(100), 5), [(Q(10), 4), (Q(50000), 6), (Q(1), 3), (Q(60000), 6), (Q(15), 4), (Q(200), 5)]),
+    ]
     try:
-        managed.solve(None, opcard, "ghost.tar")
-        sets = [(inv, k) for (op, inv, k, *_) in [e for e in log if e[0] == "set"]]
-        for inv in ("parts", "parts_matching"):
-            ks = [k for i, k in sets if i == inv]
-            want = eko.recipes if inv == "parts" else eko.recipes_matching
-            chk.ground(f"C02.solve.{inv}.each_recipe_once", sorted(map(repr, ks)) == sorted(map(repr, want)) and len(ks) == len(set(ks)), fn="eko.runner.managed:solve",
-                       goal="every recipe is computed and stored exactly once", detail=f"{len(ks)} writes for {len(want)} recipes", replay=rp)
-        tset = [k for i, k in sets if i == "operators"]
-        chk.ground("C02.solve.targets_once", [repr(k) for k in tset] == [repr(Target.from_ep(ep)) for ep in grid], fn="eko.runner.managed:solve", goal="one final operator per target, in grid order", replay=rp)
-        for ep in grid:
-            comps = recipes._elements(ep, atlas)
-            word = tuple((f"ev{hash(r) % 10**6}" if isinstance(r, Evolution) else f"ma{hash(r) % 10**6}") for r in reversed(comps))
-            stored = dict.__getitem__(eko.operators, Target.from_ep(ep)).operator
-            chk.ground(f"C02.solve.target[{ep}]", isinstance(stored, Free) and set(stored.t) == {word}, fn="eko.runner.managed:solve",
-                       goal="stored operator == product of its parts along the matched path, later steps to the left", detail=repr(stored), replay=rp)
+        for slab, origin, grid in SCENARIOS:
+            log.clear()
+            eko = FakeEKO()
+            atlas = Atlas(MatchingScales([Q(2), Q(20), Q(30000)]), origin)
+            opcard = Card()
+            opcard.evolgrid = grid
+            eko.operator_card = opcard
+            managed.EKO = type("E", (), {"create": staticmethod(lambda path, eko=eko: FakeBuilder(eko))})
+            recipes.commons.atlas = lambda th, op, atlas=atlas: atlas
+            managed.parts.evolve = lambda e, r: Operator(Free.sym(f"ev{hash(r) % 10**6}"), None)
+            managed.parts.match = lambda e, r: Operator(Free.sym(f"ma{hash(r) % 10**6}"), None)
+            ops_mod._dotop = lambda x, y: Operator(x.operator * y.operator, None)
+            managed.solve(None, opcard, "ghost.tar")
+            sets = [(inv, k) for (op, inv, k, *_) in [e for e in log if e[0] == "set"]]
+            for inv in ("parts", "parts_matching"):
+                ks = [k for i, k in sets if i == inv]
+                want = eko.recipes if inv == "parts" else eko.recipes_matching
+                chk.ground(f"C02.solve{slab}.{inv}.each_recipe_once", sorted(map(repr, ks)) == sorted(map(repr, want)) and len(ks) == len(set(ks)), fn="eko.runner.managed:solve",
+                           goal="every recipe is computed and stored exactly once", detail=f"{len(ks)} writes for {len(want)} recipes", replay=rp)
+            tset = [k for i, k in sets if i == "operators"]
+            chk.ground(f"C02.solve{slab}.targets_once", [repr(k) for k in tset] == [repr(Target.from_ep(ep)) for ep in grid], fn="eko.runner.managed:solve", goal="one final operator per target, in grid order", replay=rp)
+            for ep in grid:
+                comps = recipes._elements(ep, atlas)
+                word = tuple((f"ev{hash(r) % 10**6}" if isinstance(r, Evolution) else f"ma{hash(r) % 10**6}") for r in reversed(comps))
+                stored = dict.__getitem__(eko.operators, Target.from_ep(ep)).operator
+                chk.ground(f"C02.solve{slab}.target[{ep}]", isinstance(stored, Free) and set(stored.t) == {word}, fn="eko.runner.managed:solve",
+                           goal="stored operator == product of its parts along the matched path, later steps to the left", detail=repr(stored), replay=rp)
     finally:
         managed.EKO, recipes.commons.atlas, ops_mod.commons.atlas, managed.parts.evolve, managed.parts.match, ops_mod._dotop = saved
     chk.extra["exhaustive"] = True
